@@ -220,3 +220,7 @@ def run(ctx: Ctx) -> None:
     # ------------------------------------------------------------ R-C01.5 struct/tuple places
     from . import c01_places
     c01_places.run(ctx)
+
+    # ------------------------------------------------------------ R-C01.6 block outputs vs successor inputs
+    from . import c01_outputs
+    c01_outputs.run(ctx)
